@@ -248,3 +248,407 @@ Section T1.
     split; [exact C03_curvature_positive|exact C03_X1c].
   Qed.
 End T1.
+
+(* ------------------------------------------------------------------------------------------ *)
+(* Derivations: quotient rule                                                                   *)
+(* ------------------------------------------------------------------------------------------ *)
+Section Calc.
+  Context {I : Type} (O : ops I) (HD : derivation O).
+  Let HL := der_lin O HD.
+
+  Lemma D_quot (f g : I -> R) i : (forall k, g k <> 0) ->
+    o_D O (fun k => f k / g k) i = (o_D O f i * g i - f i * o_D O g i) / (g i * g i).
+  Proof.
+    intros Hg.
+    assert (E : f = fun k => (f k / g k) * g k).
+    { apply functional_extensionality; intro k. field. apply Hg. }
+    pose proof (f_equal (fun h => o_D O h i) E) as E2. cbv beta in E2.
+    rewrite (D_mul O HD) in E2. rewrite E2. field. apply Hg.
+  Qed.
+
+  (* derivative of the code's d_tangent_d_l component *)
+  Lemma D_Tform (a b l lp : I -> R) i : (forall k, l k <> 0) ->
+    o_D O (fun k => (- a k * lp k / l k + b k) / (l k * l k)) i =
+    (((((- o_D O a i) * lp i + (- a i) * o_D O lp i) * l i - (- a i * lp i) * o_D O l i) / (l i * l i) + o_D O b i) * (l i * l i)
+     - (- a i * lp i / l i + b i) * (o_D O l i * l i + l i * o_D O l i)) / ((l i * l i) * (l i * l i)).
+  Proof.
+    intros Hl.
+    assert (Hll : forall k, l k * l k <> 0) by (intro k; apply Rmult_integral_contrapositive_currified; apply Hl).
+    rewrite (D_quot (fun k => - a k * lp k / l k + b k) (fun k => l k * l k) i Hll).
+    rewrite (D_add O HL (fun k => - a k * lp k / l k) b).
+    rewrite (D_quot (fun k => - a k * lp k) l i Hl).
+    rewrite (D_mul O HD (fun k => - a k) lp), (D_neg O HL a), (D_mul O HD l l).
+    reflexivity.
+  Qed.
+End Calc.
+
+(* ------------------------------------------------------------------------------------------ *)
+(* T2: Frenet-Serret                                                                            *)
+(* ------------------------------------------------------------------------------------------ *)
+Section T2.
+  Context {I : Type} (O : ops I) (HD : derivation O) (VA : string -> I -> R).
+  Hypothesis HV : is_fix O init_axis VA.
+  Hypothesis Hadm : admissible_axis VA.
+  Hypothesis Hjets : jets_consistent O VA.
+  Let HL := der_lin O HD.
+
+  Local Ltac ua l := unfold_fixes O init_axis HV l.
+  Notation R0 := (VA "R0_sum"). Notation R0p := (VA "R0p_sum"). Notation R0pp := (VA "R0pp_sum"). Notation R0ppp := (VA "R0ppp_sum").
+  Notation Z0p := (VA "Z0p_sum"). Notation Z0pp := (VA "Z0pp_sum"). Notation Z0ppp := (VA "Z0ppp_sum").
+  Notation l := (lL VA). Notation lp := (lpL VA). Notation kap := (kL VA).
+  Notation t := (tL VA). Notation n := (nL VA). Notation b := (bL VA). Notation T := (TL VA).
+
+  Lemma jR0 i : o_D O R0 i = R0p i. Proof. apply Hjets. Qed.
+  Lemma jR0p i : o_D O R0p i = R0pp i. Proof. apply Hjets. Qed.
+  Lemma jR0pp i : o_D O R0pp i = R0ppp i. Proof. apply Hjets. Qed.
+  Lemma jZ0p i : o_D O Z0p i = Z0pp i. Proof. apply Hjets. Qed.
+  Lemma jZ0pp i : o_D O Z0pp i = Z0ppp i. Proof. apply Hjets. Qed.
+
+  Lemma l_nz k : l k <> 0.
+  Proof. pose proof (l_pos O VA HV Hadm k). lra. Qed.
+
+  (* d/dphi of dl/dphi is the code's d2_l_d_phi2 *)
+  Lemma Dl i : o_D O (VA "d_l_d_phi") i = lp i.
+  Proof.
+    assert (E : (fun k => VA "d_l_d_phi" k * VA "d_l_d_phi" k)
+                = (fun k => R0 k * R0 k + R0p k * R0p k + Z0p k * Z0p k)).
+    { apply functional_extensionality; intro k. apply (l_sq O VA HV Hadm k). }
+    pose proof (f_equal (fun h => o_D O h i) E) as E2. cbv beta in E2.
+    rewrite !(D_add O HL), !(D_mul O HD), jR0, jR0p, jZ0p in E2.
+    pose proof (l_nz i) as Hl. pose proof (lp_eq O VA HV Hadm i) as Hlp. unfold lL in *.
+    apply Rmult_eq_reg_r with (VA "d_l_d_phi" i); [|exact Hl].
+    rewrite Hlp. lra.
+  Qed.
+
+  (* derivatives of the tangent components *)
+  Lemma Dt0 i : o_D O (VA "tangent_cylindrical_0#2") i = l i * kap i * n 0 i + t 1 i.
+  Proof.
+    ua ("tangent_cylindrical_0#2" :: "d_r_d_phi_cylindrical_0" :: nil)%list.
+    rewrite (D_quot O HD R0p (VA "d_l_d_phi") i l_nz), Dl, jR0p.
+    rewrite (n0_eq O VA HV), (T0_eq O VA HV), (t1_eq O VA HV). unfold lL.
+    field. repeat split; first [apply (k_nz O VA HV Hadm)|apply l_nz].
+  Qed.
+  Lemma Dt1 i : o_D O (VA "tangent_cylindrical_1#2") i = l i * kap i * n 1 i - t 0 i.
+  Proof.
+    ua ("tangent_cylindrical_1#2" :: "d_r_d_phi_cylindrical_1" :: nil)%list.
+    rewrite (D_quot O HD R0 (VA "d_l_d_phi") i l_nz), Dl, jR0.
+    rewrite (n1_eq O VA HV), (T1_eq O VA HV), (t0_eq O VA HV). unfold lL.
+    field. repeat split; first [apply (k_nz O VA HV Hadm)|apply l_nz].
+  Qed.
+  Lemma Dt2 i : o_D O (VA "tangent_cylindrical_2#2") i = l i * kap i * n 2 i.
+  Proof.
+    ua ("tangent_cylindrical_2#2" :: "d_r_d_phi_cylindrical_2" :: nil)%list.
+    rewrite (D_quot O HD Z0p (VA "d_l_d_phi") i l_nz), Dl, jZ0p.
+    rewrite (n2_eq O VA HV), (T2_eq O VA HV). unfold lL.
+    field. repeat split; first [apply (k_nz O VA HV Hadm)|apply l_nz].
+  Qed.
+
+  Notation Dn0 := (o_D O (VA "normal_cylindrical_0#2")).
+  Notation Dn1 := (o_D O (VA "normal_cylindrical_1#2")).
+  Notation Dn2 := (o_D O (VA "normal_cylindrical_2#2")).
+
+  Lemma proj_n i : (Dn0 i - n 1 i) * n 0 i + (Dn1 i + n 0 i) * n 1 i + Dn2 i * n 2 i = 0.
+  Proof.
+    assert (E : (fun k => VA "normal_cylindrical_0#2" k * VA "normal_cylindrical_0#2" k
+                          + VA "normal_cylindrical_1#2" k * VA "normal_cylindrical_1#2" k
+                          + VA "normal_cylindrical_2#2" k * VA "normal_cylindrical_2#2" k) = (fun _ => 1)).
+    { apply functional_extensionality; intro k. exact (L_nn O VA HV Hadm k). }
+    pose proof (f_equal (fun h => o_D O h i) E) as E2. cbv beta in E2.
+    rewrite !(D_add O HL), !(D_mul O HD), (D_const O HD) in E2.
+    cbv [nL]. lra.
+  Qed.
+
+  Lemma proj_t i : (Dn0 i - n 1 i) * t 0 i + (Dn1 i + n 0 i) * t 1 i + Dn2 i * t 2 i = - (l i * kap i).
+  Proof.
+    assert (E : (fun k => VA "tangent_cylindrical_0#2" k * VA "normal_cylindrical_0#2" k
+                          + VA "tangent_cylindrical_1#2" k * VA "normal_cylindrical_1#2" k
+                          + VA "tangent_cylindrical_2#2" k * VA "normal_cylindrical_2#2" k) = (fun _ => 0)).
+    { apply functional_extensionality; intro k. exact (L_tn O VA HV Hadm k). }
+    pose proof (f_equal (fun h => o_D O h i) E) as E2. cbv beta in E2.
+    rewrite !(D_add O HL), !(D_mul O HD), (D_const O HD), Dt0, Dt1, Dt2 in E2.
+    pose proof (L_nn O VA HV Hadm i) as Hnn.
+    cbv [nL tL] in *.
+    set (K := lL VA i * kL VA i) in *.
+    replace (- K) with (- K * (VA "normal_cylindrical_0#2" i * VA "normal_cylindrical_0#2" i
+                          + VA "normal_cylindrical_1#2" i * VA "normal_cylindrical_1#2" i
+                          + VA "normal_cylindrical_2#2" i * VA "normal_cylindrical_2#2" i)) by (rewrite Hnn; ring).
+    lra.
+  Qed.
+
+  Lemma den_eq i : VA "torsion_denominator" i = kap i * kap i * l i ^ 6.
+  Proof.
+    ua ("torsion_denominator" :: "d_r_d_phi_cylindrical_0" :: "d_r_d_phi_cylindrical_1" :: "d_r_d_phi_cylindrical_2"
+        :: "d2_r_d_phi2_cylindrical_0" :: "d2_r_d_phi2_cylindrical_1" :: "d2_r_d_phi2_cylindrical_2" :: nil)%list.
+    qsimp. exact (L_den O VA HV Hadm i).
+  Qed.
+
+  Lemma proj_b i : (Dn0 i - n 1 i) * b 0 i + (Dn1 i + n 0 i) * b 1 i + Dn2 i * b 2 i = VA "torsion" i * l i.
+  Proof.
+    assert (Hk : forall k, VA "curvature" k <> 0) by (intro k; apply (k_nz O VA HV Hadm)).
+    ua ("normal_cylindrical_0#2" :: "normal_cylindrical_1#2" :: "normal_cylindrical_2#2" :: nil)%list.
+    rewrite !(D_quot O HD _ (VA "curvature") i Hk).
+    ua ("torsion" :: nil)%list. rewrite den_eq.
+    ua ("torsion_numerator" :: "d_tangent_d_l_cylindrical_0#2" :: "d_tangent_d_l_cylindrical_1#2" :: "d_tangent_d_l_cylindrical_2#2"
+        :: "d_r_d_phi_cylindrical_0" :: "d_r_d_phi_cylindrical_1" :: "d_r_d_phi_cylindrical_2"
+        :: "d2_r_d_phi2_cylindrical_0" :: "d2_r_d_phi2_cylindrical_1" :: "d2_r_d_phi2_cylindrical_2"
+        :: "d3_r_d_phi3_cylindrical_0" :: "d3_r_d_phi3_cylindrical_1" :: "d3_r_d_phi3_cylindrical_2" :: nil)%list.
+    rewrite (D_Tform O HD R0p (fun k => R0pp k - R0 k) (VA "d_l_d_phi") (VA "d2_l_d_phi2") i l_nz).
+    rewrite (D_Tform O HD R0 (fun k => Q2R (2#1) * R0p k) (VA "d_l_d_phi") (VA "d2_l_d_phi2") i l_nz).
+    rewrite (D_Tform O HD Z0p Z0pp (VA "d_l_d_phi") (VA "d2_l_d_phi2") i l_nz).
+    rewrite (D_sub O HL), (D_scal O HL), Dl, jR0, jR0p, jR0pp, jZ0p, jZ0pp.
+    destruct (b_eq O VA HV i) as (Hb0 & Hb1 & Hb2). rewrite Hb0, Hb1, Hb2.
+    rewrite !(n0_eq O VA HV), !(n1_eq O VA HV), !(n2_eq O VA HV), !(T0_eq O VA HV), !(T1_eq O VA HV), !(T2_eq O VA HV),
+            !(t0_eq O VA HV), !(t1_eq O VA HV), !(t2_eq O VA HV).
+    unfold lL, lpL, kL. qsimp.
+    set (Dk := o_D O (VA "curvature") i). set (Dlp := o_D O (VA "d2_l_d_phi2") i).
+    generalize (Hk i) (l_nz i). unfold lL. clear.
+    generalize (VA "curvature" i) (VA "d_l_d_phi" i) (VA "d2_l_d_phi2" i) Dk Dlp
+               (R0 i) (R0p i) (R0pp i) (R0ppp i) (Z0p i) (Z0pp i) (Z0ppp i).
+    clear. intros k l lp Dk Dlp r rp rpp rppp zp zpp zppp Hk Hl.
+    field. split; assumption.
+  Qed.
+
+  Lemma Dn_eq i :
+    Dn0 i - n 1 i = l i * (- kap i * t 0 i + VA "torsion" i * b 0 i) /\
+    Dn1 i + n 0 i = l i * (- kap i * t 1 i + VA "torsion" i * b 1 i) /\
+    Dn2 i = l i * (- kap i * t 2 i + VA "torsion" i * b 2 i).
+  Proof.
+    pose proof (frame_expand (t 0 i) (t 1 i) (t 2 i) (n 0 i) (n 1 i) (n 2 i)
+                  (L_tt O VA HV Hadm i) (L_nn O VA HV Hadm i) (L_tn O VA HV Hadm i)
+                  (Dn0 i - n 1 i) (Dn1 i + n 0 i) (Dn2 i)) as E.
+    cbv zeta in E. destruct (b_eq O VA HV i) as (Hb0 & Hb1 & Hb2).
+    rewrite <- Hb0, <- Hb1, <- Hb2 in E. rewrite proj_t, proj_n, proj_b in E.
+    destruct E as (E0 & E1 & E2).
+    repeat split; (etransitivity; [eassumption|ring]).
+  Qed.
+
+  Notation Db0 := (o_D O (VA "binormal_cylindrical_0#2")).
+  Notation Db1 := (o_D O (VA "binormal_cylindrical_1#2")).
+  Notation Db2 := (o_D O (VA "binormal_cylindrical_2#2")).
+
+  Lemma Db_eq i :
+    Db0 i - b 1 i = l i * VA "torsion" i * - n 0 i /\
+    Db1 i + b 0 i = l i * VA "torsion" i * - n 1 i /\
+    Db2 i = l i * VA "torsion" i * - n 2 i.
+  Proof.
+    destruct (b_eq O VA HV i) as (Hb0 & Hb1 & Hb2).
+    destruct (frame_txb (t 0 i) (t 1 i) (t 2 i) (n 0 i) (n 1 i) (n 2 i)
+                (L_tt O VA HV Hadm i) (L_tn O VA HV Hadm i)) as (X0 & X1 & X2).
+    cbv zeta in X0, X1, X2.
+    rewrite <- X0, <- X1, <- X2.
+    destruct (Dn_eq i) as (N0 & N1 & N2).
+    assert (N0' : Dn0 i = l i * (- kap i * t 0 i + VA "torsion" i * b 0 i) + n 1 i) by lra.
+    assert (N1' : Dn1 i = l i * (- kap i * t 1 i + VA "torsion" i * b 1 i) - n 0 i) by lra.
+    ua ("binormal_cylindrical_0#2" :: "binormal_cylindrical_1#2" :: "binormal_cylindrical_2#2" :: nil)%list.
+    rewrite !(D_sub O HL), !(D_mul O HD), Dt0, Dt1, Dt2, N0', N1', N2.
+    cbv [tL nL bL] in *. rewrite ?Hb0, ?Hb1, ?Hb2. repeat split; ring.
+  Qed.
+
+  Theorem C03_frenet_serret : frenet_serret O VA.
+  Proof.
+    intros i k Hk3.
+    destruct (Dn_eq i) as (N0 & N1 & N2). destruct (Db_eq i) as (B0 & B1 & B2).
+    pose proof (Dt0 i) as T0. pose proof (Dt1 i) as T1. pose proof (Dt2 i) as T2.
+    pose proof (l_nz i) as Hl.
+    cbv [tL nL bL lL kL] in *.
+    destruct k as [|[|[|k]]]; [| | |lia]; vnames;
+      ua ("s.tangent_cylindrical_0" :: "s.tangent_cylindrical_1" :: "s.tangent_cylindrical_2"
+          :: "s.normal_cylindrical_0" :: "s.normal_cylindrical_1" :: "s.normal_cylindrical_2"
+          :: "s.binormal_cylindrical_0" :: "s.binormal_cylindrical_1" :: "s.binormal_cylindrical_2"
+          :: "s.d_l_d_phi" :: "s.curvature" :: "s.torsion" :: nil)%list.
+    - rewrite T0, N0, B0. repeat split; field; exact Hl.
+    - rewrite T1, N1, B1. repeat split; field; exact Hl.
+    - rewrite T2, N2, B2. repeat split; field; exact Hl.
+  Qed.
+End T2.
+
+(* ------------------------------------------------------------------------------------------ *)
+(* T3: G0 = sG B0 L / (2 pi);  dvarphi/dphi proportional to dl/dphi                              *)
+(* ------------------------------------------------------------------------------------------ *)
+Section T3.
+  Context {I : Type} (O : ops I) (VA : string -> I -> R).
+  Hypothesis HV : is_fix O init_axis VA.
+  Local Ltac ua l := unfold_fixes O init_axis HV l.
+
+  Theorem C03_G0_relation : G0_relation O VA.
+  Proof.
+    intros i Hnphi Hnfp Hsum.
+    ua ("s.G0" :: "G0" :: "s.axis_length" :: "axis_length" :: "abs_G0_over_B0" :: "B0_over_abs_G0" :: "d_phi" :: "nfp" :: nil)%list.
+    qsimp. field. repeat split; try assumption. apply PI_neq0.
+  Qed.
+
+  Theorem C03_dvarphi_proportional : dvarphi_proportional O VA.
+  Proof.
+    intros i. ua ("s.d_varphi_d_phi" :: "s.d_l_d_phi" :: "B0_over_abs_G0" :: nil)%list. unfold Rdiv. ring.
+  Qed.
+
+  Theorem C03_T3 : G0_relation O VA /\ dvarphi_proportional O VA.
+  Proof. split; [exact C03_G0_relation|exact C03_dvarphi_proportional]. Qed.
+End T3.
+
+(* ------------------------------------------------------------------------------------------ *)
+(* T4: the Boozer angle on the discrete grid                                                     *)
+(* ------------------------------------------------------------------------------------------ *)
+Lemma lsum_app l1 l2 : lsum (l1 ++ l2) = lsum l1 + lsum l2.
+Proof. induction l1 as [|x l1 IH]; simpl; [lra|]. unfold lsum in *. simpl. rewrite IH. lra. Qed.
+
+Lemma gsum_S m f : gsum (S m) f = gsum m f + f m.
+Proof.
+  unfold gsum, grid. rewrite seq_S, map_app, lsum_app. simpl. lra.
+Qed.
+
+Lemma gsum_pos m f : (0 < m)%nat -> (forall j, 0 < f j) -> 0 < gsum m f.
+Proof.
+  intros Hm Hf. induction m as [|m IH]; [lia|].
+  rewrite gsum_S. destruct m as [|m].
+  - unfold gsum, grid. simpl. specialize (Hf 0%nat). lra.
+  - assert (0 < gsum (S m) f) by (apply IH; lia). specialize (Hf (S m)). lra.
+Qed.
+
+Section T4.
+  Variable n : nat. Variable Dm : nat -> nat -> R. Variable fmin : (nat -> R) -> R.
+  Variable VA : string -> nat -> R.
+  Hypothesis HV : is_fix (disc_ops n Dm fmin) init_axis VA.
+  Hypothesis Hrec : cumsum_recurrence n VA.
+  Local Ltac ua l := unfold_fixes (disc_ops n Dm fmin) init_axis HV l.
+
+  Notation lj := (VA "d_l_d_phi"). Notation cs := (VA "varphi_cumsum").
+
+  Lemma cumsum_closed j : (j < n)%nat -> cs j + lj 0%nat + lj j = 2 * gsum (S j) lj.
+  Proof.
+    destruct Hrec as (H0 & HS). induction j as [|j IH]; intros Hj.
+    - rewrite H0. unfold gsum, grid. simpl. lra.
+    - rewrite (HS (S j)) by lia. replace (S j - 1)%nat with j by lia.
+      rewrite (gsum_S (S j)). specialize (IH ltac:(lia)). lra.
+  Qed.
+
+  Theorem C03_varphi : varphi_props n VA.
+  Proof.
+    unfold varphi_props. intros Hn Hl Hnfp Hnphi Hnfpc Hnphic. set (vp := VA "s.varphi#2").
+    set (G := gsum n lj). assert (HG : 0 < G) by (apply gsum_pos; assumption).
+    set (c := PI / (VA "s.nfp" 0%nat * G)).
+    assert (Hc : 0 < c).
+    { unfold c. apply Rdiv_lt_0_compat; [apply PI_RGT_0|apply Rmult_lt_0_compat; assumption]. }
+    assert (Hfac : forall j, 1 / 2 * VA "d_phi" j * 2 * PI / VA "axis_length" j = c).
+    { intros j. ua ("axis_length" :: "d_phi" :: "nfp" :: nil)%list. cbn [o_sum disc_ops]. fold G.
+      rewrite (Hnfpc j), (Hnphic j). unfold c. qsimp. field.
+      repeat split; try lra. apply PI_neq0. }
+    assert (Hvp : forall j, vp j = cs j * c).
+    { intros j. rewrite <- (Hfac j). unfold vp. ua ("s.varphi#2" :: nil)%list. qsimp. unfold Rdiv. ring. }
+    destruct Hrec as (H0 & HS).
+    split; [rewrite Hvp, H0; ring|]. split.
+    - intros j Hj. rewrite !Hvp. rewrite (HS (j + 1)%nat) by lia. replace (j + 1 - 1)%nat with j by lia.
+      pose proof (Hl j). pose proof (Hl (j + 1)%nat). nra.
+    - rewrite Hvp, (Hfac 0%nat).
+      pose proof (cumsum_closed (n - 1)%nat ltac:(lia)) as Hc2. replace (S (n - 1)) with n in Hc2 by lia. fold G in Hc2.
+      replace (cs (n - 1)%nat * c + (lj (n - 1)%nat + lj 0%nat) * c) with (2 * G * c) by (rewrite <- Hc2; ring).
+      unfold c. field. split; lra.
+  Qed.
+End T4.
+
+(* ------------------------------------------------------------------------------------------ *)
+(* T5: elongation = ratio of the singular values                                                 *)
+(* ------------------------------------------------------------------------------------------ *)
+Lemma elong_alg (xs xc ys yc e : R) :
+  let p := xs * xs + xc * xc + ys * ys + yc * yc in
+  let q := xs * yc - xc * ys in
+  let s1 := (p + sqrt (p * p - 4 * q * q)) / 2 in
+  let s2 := (p - sqrt (p * p - 4 * q * q)) / 2 in
+  q <> 0 -> e = (p + sqrt (p * p - 4 * q * q)) / (2 * Rabs q) ->
+  s1 + s2 = p /\ s1 * s2 = q * q /\ 0 < s2 /\ e * e * s2 = s1 /\ 1 <= e.
+Proof.
+  intros p q s1 s2 Hq He.
+  assert (Hm : 0 <= p - 2 * q).
+  { replace (p - 2 * q) with ((xs - yc) * (xs - yc) + (xc + ys) * (xc + ys)) by (unfold p, q; ring).
+    pose proof (Rle_0_sqr (xs - yc)). pose proof (Rle_0_sqr (xc + ys)). unfold Rsqr in *. lra. }
+  assert (Hp : 0 <= p + 2 * q).
+  { replace (p + 2 * q) with ((xs + yc) * (xs + yc) + (xc - ys) * (xc - ys)) by (unfold p, q; ring).
+    pose proof (Rle_0_sqr (xs + yc)). pose proof (Rle_0_sqr (xc - ys)). unfold Rsqr in *. lra. }
+  assert (Hd : 0 <= p * p - 4 * q * q).
+  { replace (p * p - 4 * q * q) with ((p - 2 * q) * (p + 2 * q)) by ring. apply Rmult_le_pos; assumption. }
+  assert (Hss : sqrt (p * p - 4 * q * q) * sqrt (p * p - 4 * q * q) = p * p - 4 * q * q) by (apply sqrt_sqrt; exact Hd).
+  assert (Hs0 : 0 <= sqrt (p * p - 4 * q * q)) by apply sqrt_pos.
+  assert (Ha : Rabs q * Rabs q = q * q).
+  { unfold Rabs. destruct (Rcase_abs q); ring. }
+  assert (Ha0 : 0 < Rabs q) by (apply Rabs_pos_lt; exact Hq).
+  assert (Hpa : 2 * Rabs q <= p).
+  { unfold Rabs. destruct (Rcase_abs q); lra. }
+  assert (Hqq : 0 < q * q) by (rewrite <- Ha; apply Rmult_lt_0_compat; assumption).
+  unfold s1, s2. clearbody p q. clear s1 s2.
+  set (s := sqrt (p * p - 4 * q * q)) in *. set (a := Rabs q) in *.
+  split; [field|]. split.
+  { transitivity ((p * p - s * s) / 4); [field|]. rewrite Hss. field. }
+  assert (Hsp : s < p) by nra.
+  split; [lra|]. split.
+  - rewrite He.
+    transitivity ((p + s) * (p * p - s * s) / (8 * (a * a))); [field; lra|].
+    rewrite Hss, Ha. field. lra.
+  - rewrite He. apply Rmult_le_reg_r with (2 * a); [lra|].
+    replace ((p + s) / (2 * a) * (2 * a)) with (p + s) by (field; lra). lra.
+Qed.
+
+Section T5.
+  Context {I : Type} (O : ops I) (V1 : string -> I -> R).
+
+  Local Ltac prove_elong P HV :=
+    intros i Hq; unfold s1sq, s2sq, pp, qq in *;
+    apply elong_alg; [exact Hq|];
+    unfold_fixes O P HV ("s.elongation" :: "p" :: "q" :: nil)%list; qsimp; reflexivity.
+
+  Theorem C03_elongation_h0 : is_fix O r1_diagnostics_h0 V1 -> elongation_is_sv_ratio V1.
+  Proof. intros HV. prove_elong r1_diagnostics_h0 HV. Qed.
+  Theorem C03_elongation_hN : is_fix O r1_diagnostics_hN V1 -> elongation_is_sv_ratio V1.
+  Proof. intros HV. prove_elong r1_diagnostics_hN HV. Qed.
+End T5.
+
+(* ------------------------------------------------------------------------------------------ *)
+(* Closed statements on the final environment of a run of the regenerated programs               *)
+(* ------------------------------------------------------------------------------------------ *)
+Theorem C03_frenet_serret_all : forall (I : Type) (O : ops I), derivation O -> forall VA : string -> I -> R,
+  is_fix O init_axis VA -> admissible_axis VA -> jets_consistent O VA ->
+  orthonormal VA /\ right_handed VA /\ tangent_is_dr_dl VA /\ curvature_positive VA /\ X1c_def VA /\ frenet_serret O VA.
+Proof.
+  intros I O HD VA HV Hadm Hj.
+  destruct (C03_T1 O VA HV Hadm) as (H1 & H2 & H3 & H4 & H5).
+  repeat (split; [assumption|]). exact (C03_frenet_serret O HD VA HV Hadm Hj).
+Qed.
+
+Theorem C03_T1_run : forall (I : Type) (O : ops I) (rho : @envG I), let VA := runG O init_axis rho in
+  admissible_axis VA ->
+  orthonormal VA /\ right_handed VA /\ tangent_is_dr_dl VA /\ curvature_positive VA /\ X1c_def VA.
+Proof. intros I O rho VA Hadm. exact (C03_T1 O VA (runG_is_fix O _ rho ssa_init_axis) Hadm). Qed.
+
+Theorem C03_T2_run : forall (I : Type) (O : ops I), derivation O -> forall rho : @envG I,
+  let VA := runG O init_axis rho in
+  admissible_axis VA -> jets_consistent O VA -> frenet_serret O VA.
+Proof. intros I O HD rho VA Hadm Hj. exact (C03_frenet_serret O HD VA (runG_is_fix O _ rho ssa_init_axis) Hadm Hj). Qed.
+
+Theorem C03_T3_run : forall (I : Type) (O : ops I) (rho : @envG I), let VA := runG O init_axis rho in
+  G0_relation O VA /\ dvarphi_proportional O VA.
+Proof. intros I O rho VA. exact (C03_T3 O VA (runG_is_fix O _ rho ssa_init_axis)). Qed.
+
+Theorem C03_T4_run : forall n Dm fmin (rho : @envG nat), let VA := runG (disc_ops n Dm fmin) init_axis rho in
+  cumsum_recurrence n VA -> varphi_props n VA.
+Proof. intros n Dm fmin rho VA Hrec. exact (C03_varphi n Dm fmin VA (runG_is_fix _ _ rho ssa_init_axis) Hrec). Qed.
+
+Theorem C03_T5_run_h0 : forall (I : Type) (O : ops I) (rho : @envG I),
+  elongation_is_sv_ratio (runG O r1_diagnostics_h0 rho).
+Proof. intros I O rho. exact (C03_elongation_h0 O _ (runG_is_fix O _ rho ssa_r1_h0)). Qed.
+Theorem C03_T5_run_hN : forall (I : Type) (O : ops I) (rho : @envG I),
+  elongation_is_sv_ratio (runG O r1_diagnostics_hN rho).
+Proof. intros I O rho. exact (C03_elongation_hN O _ (runG_is_fix O _ rho ssa_r1_hN)). Qed.
+
+Print Assumptions C03_T1.
+Print Assumptions C03_frenet_serret.
+Print Assumptions C03_frenet_serret_all.
+Print Assumptions C03_T3.
+Print Assumptions C03_varphi.
+Print Assumptions C03_elongation_h0.
+Print Assumptions C03_elongation_hN.
+Print Assumptions C03_T1_run.
+Print Assumptions C03_T2_run.
+Print Assumptions C03_T3_run.
+Print Assumptions C03_T4_run.
+Print Assumptions C03_T5_run_h0.
+Print Assumptions C03_T5_run_hN.
+Check C03_T1. Check C03_frenet_serret. Check C03_T3. Check C03_varphi. Check C03_elongation_h0. Check C03_elongation_hN.
